@@ -7,10 +7,14 @@ use std::fmt::Write as _;
 use std::panic::{catch_unwind, AssertUnwindSafe};
 
 use average::{Estimate, Merge};
+#[cfg(feature = "rayon")]
 use rayon::iter::{
     FromParallelIterator, IndexedParallelIterator, IntoParallelIterator, IntoParallelRefIterator,
     ParallelIterator,
 };
+
+#[cfg(not(feature = "serde"))]
+use crate::serde_json;
 
 use crate::types::*;
 
@@ -50,7 +54,13 @@ impl Obs {
     }
 }
 
+#[cfg(not(feature = "serde"))]
+pub fn flatten(v: &serde_json::Value, _prefix: &str, _out: &mut String) {
+    match *v {}
+}
+
 /// Flatten a serde_json::Value into `path=value` pairs (f64 as bit pattern).
+#[cfg(feature = "serde")]
 pub fn flatten(v: &serde_json::Value, prefix: &str, out: &mut String) {
     use serde_json::Value;
     fn scalar(v: &Value) -> Option<String> {
@@ -186,6 +196,7 @@ pub trait Est: Sized + Clone {
 // ---------------------------------------------------------------------------------------
 // rayon plumbing
 
+#[cfg(feature = "rayon")]
 fn with_pool<R: Send>(threads: usize, f: impl FnOnce() -> R + Send) -> R {
     use std::collections::HashMap;
     use std::sync::{Arc, Mutex, OnceLock};
@@ -204,6 +215,7 @@ fn with_pool<R: Send>(threads: usize, f: impl FnOnce() -> R + Send) -> R {
 
 /// Delay injection at a real suspension point: between the items of a fold, which is
 /// where rayon's work stealing happens.  Pseudo-random in (value, seed); seed 0 = off.
+#[cfg(feature = "rayon")]
 #[inline]
 fn delay(x: f64, seed: u64) {
     if seed == 0 {
@@ -223,6 +235,7 @@ fn delay(x: f64, seed: u64) {
     }
 }
 
+#[cfg(feature = "rayon")]
 pub fn par_collect<T>(cfg: &ParCfg, data: &[f64]) -> T
 where
     T: FromParallelIterator<f64> + for<'a> FromParallelIterator<&'a f64> + Send,
@@ -265,6 +278,12 @@ where
 // ---------------------------------------------------------------------------------------
 // impl helpers
 
+#[cfg(not(feature = "serde"))]
+macro_rules! serde_fns {
+    () => {};
+}
+
+#[cfg(feature = "serde")]
 macro_rules! serde_fns {
     () => {
         fn to_json(&self) -> Option<String> {
@@ -311,6 +330,7 @@ macro_rules! single_common {
                 Some((0..n).map(|i| if i == pos { ext } else { base }).collect())
             }
         }
+        #[cfg(feature = "rayon")]
         fn par(cfg: &ParCfg, data: &[f64]) -> Option<Self> {
             Some(par_collect::<$t>(cfg, data))
         }
